@@ -397,9 +397,11 @@ func checkC01(p *Program, r *Report) {
 	c01FieldCoverage(p, r, codecs, vers)
 	c01ElisionPredicate(p, r)
 	c02BitAssembly(p, r)
+	c01PrimitivePairing(p, r)
+	// an encoding depends on the frame alone: no content carried over in pooled buffers
+	poolHygiene(p, r, "pool-hygiene")
 }
 
-// c01Pair compares one encoder/decoder pair for one version; returns the number of writer paths.
 func c01Pair(p *Program, r *Report, key string, enc, dec *types.Func, v constant.Value, leg legality, byteMode bool, presets map[string]Val) int {
 	wr := runWire(p, enc, v, byteMode, presets)
 	rr := runWire(p, dec, v, byteMode, presets)
